@@ -1,5 +1,11 @@
 """Per-property configuration of ./check: theorem module, correspondence streams, oracles."""
 
+# the translator's own correspondence: the Go functions go2lean translates vs the regenerated definitions (Gen/Src.lean)
+_SRC_STREAM = {"name": "src", "quick": 4000, "thorough": 150000, "thorough_seeds": 2}
+_SRC_RULE = (" `src`: the functions harness/cmd/go2lean translates (kademlia distance functions, the ten mux/demux functions, fragswarm "
+             "newMessage/parseMessage, mbapp header accessors, bitmap and collector histories, p2pke classifiers and header, runs of the "
+             "wireguard replay filter) on related/boundary inputs; the Lean driver evaluates the REGENERATED definitions on the same "
+             "inputs, panics included: the translator and Src/Rt.lean are compared with the Go compiler on every run.")
 _CACHE_STREAM = {"name": "cache", "quick": 30000, "thorough": 400000, "thorough_seeds": 4, "stateful": True, "seq_start": "new"}
 
 _FRAG_STREAM = {"name": "frag", "quick": 25000, "thorough": 400000, "thorough_seeds": 3, "stateful": True, "seq_start": ("frag-new", "mb-new")}
@@ -100,7 +106,7 @@ PROPS = {
                                          "first InitHello (three reliable round trips); arbitrary adversarial prefixes are covered by the "
                                          "invariants (slots, keys, keep-alive) and by the correspondence, not by a general convergence theorem",
                                          "timers firing when due and wall-clock bounds are outside the model; the real-time keep-alive case of the oracle is exploration"]},
-    "C08": {"streams": [{"name": "mux", "quick": 3000, "thorough": 200000, "thorough_seeds": 2},
+    "C08": {"streams": [_SRC_STREAM, {"name": "mux", "quick": 3000, "thorough": 200000, "thorough_seeds": 2},
                         {"name": "frag", "quick": 12000, "thorough": 300000, "thorough_seeds": 2, "stateful": True, "seq_start": ("frag-new", "mb-new")},
                         {"name": "key", "quick": 8000, "thorough": 200000, "thorough_seeds": 2},
                         {"name": "addr", "quick": 8000, "thorough": 200000, "thorough_seeds": 2},
@@ -116,16 +122,16 @@ PROPS = {
                     "cap == len so that an out-of-range slice expression faults exactly when the length check says so",
             "assumptions": ["parsers outside the repository (encoding/asn1, protobuf, flynn/noise, quic-go, x/crypto/ssh) are fuzzed through the "
                             "streams but not modelled"]},
-    "C02": {"streams": [_KE_STREAM, {"name": "replay", "quick": 60000, "thorough": 2000000, "thorough_seeds": 2, "stateful": True, "seq_start": "rp-new"}], "oracles": ["ke"], "rule": _KE_RULE, "assumptions": _KE_ASSUME,
+    "C02": {"streams": [_KE_STREAM, {"name": "replay", "quick": 60000, "thorough": 2000000, "thorough_seeds": 2, "stateful": True, "seq_start": "rp-new"}, _SRC_STREAM], "oracles": ["ke"], "rule": _KE_RULE + _SRC_RULE, "assumptions": _KE_ASSUME,
             "oracle_n": {"quick": 3000, "thorough": 60000}},
     "C03": {"streams": [_KE_STREAM], "oracles": ["ke"], "rule": _KE_RULE, "assumptions": _KE_ASSUME,
             "oracle_n": {"quick": 3000, "thorough": 60000}},
     "C06": {"streams": [_KE_STREAM], "oracles": ["ke"], "rule": _KE_RULE, "assumptions": _KE_ASSUME,
             "oracle_n": {"quick": 3000, "thorough": 60000}},
     "C10": {
-        "streams": [_FRAG_STREAM, {"name": "fragt", "quick": 12000, "thorough": 300000, "thorough_seeds": 2, "stateful": True, "seq_start": ("frag-new", "mb-new")}],
+        "streams": [_FRAG_STREAM, {"name": "fragt", "quick": 12000, "thorough": 300000, "thorough_seeds": 2, "stateful": True, "seq_start": ("frag-new", "mb-new")}, _SRC_STREAM],
         "oracles": ["frag"],
-        "rule": "`fragt`: the same scenarios under the fake clock (bin/corr26) with clock steps of 1 ms..2 min between fragments, so that "
+        "rule": _SRC_RULE + " `fragt`: the same scenarios under the fake clock (bin/corr26) with clock steps of 1 ms..2 min between fragments, so that "
                 "the minute-ticker clean-up loops of both layers run at known times (fragswarm drops aggregators older than 10 s; "
                 "mbapp, whose ttl is never set, every collector not created at that very instant); the table sizes are compared. "
                 "`frag`: scenarios over real fragswarm and mbapp receivers fed synchronously by the harness: 1-5 messages from 3 sources, "
@@ -157,9 +163,9 @@ PROPS = {
                         "time.Time is modelled as Nat seconds with 0 = the zero time"],
     },
     "C19": {
-        "streams": [_CACHE_STREAM],
+        "streams": [_CACHE_STREAM, _SRC_STREAM],
         "oracles": ["cacheorder"],
-        "rule": "same operation sequences as C18; foreach/closest/closer lines use query keys that are pool keys, the locus, "
+        "rule": _SRC_RULE + " same operation sequences as C18; foreach/closest/closer lines use query keys that are pool keys, the locus, "
                 "prefixes, extensions, one-bit neighbours and random keys; sequences are compared up to permutation inside "
                 "runs of entries equidistant from the query",
         "assumptions": ["slices.SortFunc yields some permutation sorted by the comparator (ties in any order)"],
@@ -199,9 +205,9 @@ PROPS = {
                         "regexp is modelled by explicit functions for the two expressions the code uses"],
     },
     "C15": {
-        "streams": [{"name": "mux", "quick": 6000, "thorough": 300000, "thorough_seeds": 3}],
+        "streams": [{"name": "mux", "quick": 6000, "thorough": 300000, "thorough_seeds": 3}, _SRC_STREAM],
         "oracles": ["mux"],
-        "rule": "mux/demux lines: one case per distinct (kind, channel id, payload | frame); channel ids and frames are "
+        "rule": _SRC_RULE + " mux/demux lines: one case per distinct (kind, channel id, payload | frame); channel ids and frames are "
                 "boundary-directed (empty, 2^7k, 2^8k, 2^63, 2^64-1, truncated / overflowing / contradicting length fields); "
                 "dispatch/mtu lines come from real muxed swarms over an in-memory realm with 1-6 open channels",
         "assumptions": ["encoding/binary Uvarint/PutUvarint/BigEndian are modelled exactly and cross-checked by the mux stream",
